@@ -913,7 +913,10 @@ func (e *executor) exec1(line, lean string) string {
 			var err2 error
 			ro2 := withReader(s2, func() { p2, err2 = r.Generate() })
 			capt.take()
-			if ro2.panicked || err2 != nil || p2 == nil || p2.String() != p.String() || p2.Entropy != p.Entropy {
+			if reentryBlocked {
+				oracle += " REENTRANCY-DEPENDENT=blocked(a call made while another is in progress never returned)"
+				reentryBlocked = false
+			} else if ro2.panicked || err2 != nil || p2 == nil || p2.String() != p.String() || p2.Entropy != p.Entropy {
 				oracle += " REENTRANCY-DEPENDENT"
 			}
 		}
@@ -1131,7 +1134,10 @@ func (e *executor) exec1(line, lean string) string {
 			var p2 *spg.Password
 			ro2 := withReader(s2, func() { p2, _ = r.Generate() })
 			capt.take()
-			if ro2.panicked || p2 == nil || showTokens(p2.Tokens()) != showTokens(p.Tokens()) || p2.Entropy != p.Entropy {
+			if reentryBlocked {
+				so += " REENTRANCY-DEPENDENT=blocked(a call made while another is in progress never returned)"
+				reentryBlocked = false
+			} else if ro2.panicked || p2 == nil || showTokens(p2.Tokens()) != showTokens(p.Tokens()) || p2.Entropy != p.Entropy {
 				so += " REENTRANCY-DEPENDENT"
 			}
 		}
